@@ -110,7 +110,9 @@ impl Api {
             name: name.into(),
             topic: topic.into(),
             ack_deadline_seconds: ack_deadline,
-            push_config: push.map(|e| PushConfig { push_endpoint: e.into(), ..Default::default() }),
+            // push subscriptions carry push-config attributes of their own (they are configuration of the endpoint, not
+            // attributes of the messages)
+            push_config: push.map(|e| PushConfig { push_endpoint: e.into(), attributes: [("x-goog-version".to_string(), "v1".to_string())].into_iter().collect(), ..Default::default() }),
             ..Default::default()
         };
         code(self.s.clone().create_subscription(req).await).map(sub_view)
